@@ -115,6 +115,17 @@ def _unambiguous(xs, lo, hi):
     return xs[keep]
 
 
+def _paired_points(case, lo, hi, mu, sd):
+    """One point per component: inside its interval (components with an even index) or just outside it."""
+    R = len(mu)
+    a = np.maximum(lo, mu - 6 * sd)
+    b = np.minimum(hi, mu + 6 * sd)
+    z = 0.5 + 0.4 * np.tanh(np.resize(np.asarray(case["xs"], float), R) / max(float(case.get("unit", 1.0)), 1e-300))
+    xin = a + z * (b - a)
+    xout = np.where(np.isfinite(hi), hi + 0.5 * sd, np.where(np.isfinite(lo), lo - 0.5 * sd, xin))  # (untruncated component: inside)
+    return np.where(np.arange(R) % 2 == 0, xin, xout).reshape(R, 1)
+
+
 def _limits(case, which, R):
     v = case[which]
     if v is None:
@@ -174,6 +185,12 @@ def _run(case):
         ok, got = lib(fails, "evaluate", lambda: t(J(xs))) if len(xs) else (False, None)
         if ok:
             check(fails, "truncated:evaluate", got, want, np.maximum(want, 1e-300) + 1e-12 * np.exp(lb)[:, None])
+        # element-wise evaluation: point r (inside component r's interval, or outside it) paired with component r
+        xe = _paired_points(case, lo, hi, mu, sd)
+        wante = np.array([u(r)(xe[r, 0]) if lo[r] <= xe[r, 0] <= hi[r] else 0.0 for r in range(R)])
+        ok, got = lib(fails, "evaluate_elementwise", lambda: t(J(xe), element_wise=True))
+        if ok:
+            check(fails, "truncated:evaluate_elementwise", got, wante, np.maximum(wante, 1e-300) + 1e-12 * np.exp(lb))
         for nm, kk, kw in [("1", 0, {}), ("x", 1, {}), ("x**2", 2, {}), ("x**k", k, {"k": k})]:
             ok, got = lib(fails, f"integrate[{nm}]", lambda: t.integrate(nm, **kw))
             if ok:
@@ -216,6 +233,11 @@ def _run(case):
     ok, got = lib(fails, tag + ".evaluate", lambda: d(J(xs))) if len(xs) else (False, None)
     if ok:
         check(fails, tag + ":evaluate", got, want, (np.maximum(want, 1e-300) + 1e-12) * amp[:, None])
+    xe = _paired_points(case, lo, hi, mu, sd)
+    wante = np.array([u(r)(xe[r, 0]) / mom[r, 0] if lo[r] <= xe[r, 0] <= hi[r] else 0.0 for r in range(R)])
+    ok, got = lib(fails, tag + ".evaluate_elementwise", lambda: d(J(xe), element_wise=True))
+    if ok:
+        check(fails, tag + ":evaluate_elementwise", got, wante, (np.maximum(wante, 1e-300) + 1e-12) * amp)
     ok, got = lib(fails, tag + ".integral", lambda: d.integrate("1"))
     if ok:
         check(fails, tag + ":integral_one", np.asarray(got).reshape(R), np.ones(R), amp)
